@@ -132,7 +132,22 @@ OscStrings ==
       intro \in {<<27, 93>>, <<157>>}, code \in {48, 49, 50, 51, 57, 97},
       pay \in OscPayloads, term \in {<<7>>, <<156>>, <<27, 92>>} }
 
+\* pairs of complete sequences: state left behind by the first (collected parameters, the
+\* private flag, an OSC payload, a pending designator) must not leak into the second
+FirstSeqs ==
+  { <<27, 91>> \o body \o fin : body \in { <<55, 59, 57>>, <<63, 55, 59, 57>>, <<55, 59>>, <<63, 53>>, <<49, 50, 59, 49, 51, 59, 52>> },
+                                  fin \in { <<24>>, <<26>>, <<36, 120>>, <<122>>, <<72>>, <<27>>, <<104>>, <<109>> } }
+  \cup { <<27, 93, 48, 59, 97, 98, 99, 7>>, <<27, 93, 49, 59, 120, 27, 92>>, <<157, 50, 59, 121, 156>>, <<27, 93, 82>>,
+         <<27, 40, 66>>, <<27, 41, 48>>, <<27, 35, 56>>, <<27, 37, 71>>, <<27, 55>>, <<14>>, <<27, 91, 7, 53, 10, 59, 72>> }
+SecondSeqs ==
+  { <<27, 91, 50, 72>>, <<27, 91, 72>>, <<155, 59, 51, 102>>, <<27, 91, 53, 109>>, <<27, 91, 50, 53, 104>>, <<27, 91, 63, 50, 53, 108>>,
+    <<27, 91, 114>>, <<27, 91, 59, 51, 114>>, <<27, 93, 50, 59, 120, 7>>, <<27, 93, 49, 7>>, <<27, 91, 36, 120, 120>>, <<27, 91, 51, 24, 120>>,
+    <<120, 15, 121>>, <<27, 91, 49, 59, 50, 59, 51, 109>> }
+Pairs == { a \o b : a \in FirstSeqs, b \in SecondSeqs }
+Triples == { a \o b \o c : a \in FirstSeqs, b \in {<<27, 91, 51, 24>>, <<27, 91, 52, 59, 36, 112>>, <<120>>}, c \in SecondSeqs }
+
 Seeds == CASE Family = "graph"    -> {<<>>}
+           [] Family = "pairs"    -> Pairs \cup Triples
            [] Family = "directed" -> Directed
            [] Family = "osc"      -> OscStrings
 
